@@ -45,5 +45,5 @@ MANIFEST = {
     'category': 'proof',
     'technique': 'Coq proof by structural induction over values of the generic encode/decode round trip against an abstract driver interface (wire_ok), composed down to bytes with the per-format driver models (simple, msgpack, binc full; cbor partial) + vm_compute correspondence of the generic model with the real cbor Encoder/Decoder through an independent cbor parser + direct round-trip oracle on all five formats, bytes and io transports, boundary lengths',
     'text': 'C01_generic_roundtrip: for all option vectors (StructToArray, Canonical, NilCollectionToZeroLength, MaxDepth, ErrorIfNoField), supported static types, well-typed values and map iteration orders, the generic decoder applied to what any wire_ok driver hands back for the generic encoder\'s calls returns the value up to the documented losses. Composed theorems (Properties/C01_compose.v): C01_simple_roundtrip, C01_msgpack_roundtrip, C01_binc_roundtrip (stateful, any related symbol tables) — the bytes the driver model writes for the generic encoder\'s item, followed by any rest, decode (driver model) to the normalised item leaving rest, and the generic decoder turns it into the value up to that format\'s stated losses; C01_cbor_roundtrip_bytes_partial (non-zero time.Time outside). json is not composed (Wjson round trip rests on unproved lexical laws); the older C01_*_roundtrip_partial statements over the interface hypothesis remain in Properties/C01.v and are superseded for those four formats.',
-    'note': 'Trusted: Coq kernel; hand-written generic model (correspondence-checked on cbor) and driver models (each correspondence-checked by its wire check); the typed readers rd_* are hand-written functions of the item the naked decoder returns (that each typed read on bytes equals rd_* on the item is not proved); reflection/unsafe value access; Go toolchain. Exclusions stated in the theorems (leaves_ok): float32 signalling NaNs (come back quiet), unsigned >= 2^63 under SignedInteger (rejected), non-zero times for cbor, zero scalars under simple EncZeroValuesAsNil. Findings: F01-g1, F01-1 fixed; F01-s2r (json + StringToRaw) known.',
+    'note': 'Trusted: Coq kernel; hand-written generic model (correspondence-checked on cbor) and driver models (each correspondence-checked by its wire check); the typed readers rd_* are hand-written functions of the item the naked decoder returns; that a typed read on the encoder\'s bytes equals rd_* on the item is proved per leaf read: C01_{msgpack,simple,cbor,binc}_typed_reads (integers into the 11 integer kinds, nil, floats into float64, against the C07 byte-level driver models) and C01_{cbor,binc}_typed_reads_leaves_partial (TryNil, CheckBreak, DecodeBool, DecodeStringAsBytes incl. cbor chunks and binc symbols in any related tables, DecodeBytes, DecodeTime, ReadArrayStart/ReadMapStart, against the reader models of C01/TypedRd.v) - not proved: float32 destinations, cbor tag-1 times, the element walk between a container head and its end, msgpack/simple non-numeric reads; reflection/unsafe value access; Go toolchain. Exclusions stated in the theorems (leaves_ok): float32 signalling NaNs (come back quiet), unsigned >= 2^63 under SignedInteger (rejected), non-zero times for cbor, zero scalars under simple EncZeroValuesAsNil. Findings: F01-g1, F01-1 fixed; F01-s2r (json + StringToRaw) known.',
 }
